@@ -1405,7 +1405,9 @@ func compileTableExpr(context *funcContext, reg int, ex *ast.TableExpr, ec *expc
 			reg = regorg
 		}
 		flush := arraycount % FieldsPerFlush
-		if (arraycount != 0 && (flush == 0 || islast)) || lastvararg {
+		// flush when a positional item has just filled a batch, or at the last field when a
+		// partial batch is pending; a keyed field that follows a full batch has nothing to flush
+		if (arraycount != 0 && ((flush == 0 && field.Key == nil) || (flush != 0 && islast))) || lastvararg {
 			reg = regbase
 			num := flush
 			if num == 0 {
